@@ -98,6 +98,11 @@ RasterOfPic(pic) ==
 (* string without NUL maps a character to its position in the string; NUL     *)
 (* followed by the start and end characters denotes the inclusive range.      *)
 RangeSeq(lo, hi) == IF hi < lo THEN <<>> ELSE [i \in 1..(hi - lo + 1) |-> lo + i - 1]
+\* the CHARACTERS lo..=hi: the surrogate code points U+D800..U+DFFF are not characters (a Rust `char` range skips them)
+CharRangeSeq(lo, hi) ==
+  IF hi < lo THEN <<>>
+  ELSE IF hi < 55296 \/ lo > 57343 THEN RangeSeq(lo, hi)
+  ELSE RangeSeq(lo, IF 55295 < hi THEN 55295 ELSE hi) \o RangeSeq(IF 57344 > lo THEN 57344 ELSE lo, hi)
 \* every NUL is followed by a start and an end character with start <= end; the documentation
 \* gives no meaning to anything else
 RECURSIVE WFFrom(_, _)
@@ -110,7 +115,7 @@ WellFormedMapping(m) == WFFrom(m, 1)
 RECURSIVE ExpandFrom(_, _)
 ExpandFrom(m, i) ==
   IF i > Len(m) THEN <<>>
-  ELSE IF m[i] = NUL THEN RangeSeq(m[i + 1], m[i + 2]) \o ExpandFrom(m, i + 3)
+  ELSE IF m[i] = NUL THEN CharRangeSeq(m[i + 1], m[i + 2]) \o ExpandFrom(m, i + 3)
   ELSE <<m[i]>> \o ExpandFrom(m, i + 1)
 Expand(m) == ExpandFrom(m, 1)
 \* exp = Expand(map).  Index of character c: its (first) position in the expanded string, counted
@@ -152,7 +157,7 @@ EndCh == -1      \* the iterator returned None (characters are >= 0)
 CharsInit == [i |-> 1, cur |-> 0, hi |-> -1]
 RECURSIVE CharsNext(_, _)
 CharsNext(m, st) ==
-  IF st.cur <= st.hi THEN <<st.cur, [st EXCEPT !.cur = @ + 1]>>
+  IF st.cur <= st.hi THEN <<st.cur, [st EXCEPT !.cur = IF @ = 55295 THEN 57344 ELSE @ + 1]>>   \* Step for char skips U+D800..U+DFFF
   ELSE IF st.i > Len(m) THEN <<EndCh, st>>                                 \* mapping.rs:118 `chars.next()?`
   ELSE IF m[st.i] = NUL THEN
          IF st.i + 2 > Len(m) THEN <<EndCh, [i |-> Len(m) + 1, cur |-> 0, hi |-> -1]>>  \* :120-121 `?` on start / end
